@@ -64,7 +64,8 @@ PROPS = {}
 _NOTE = ("Trusted: Coq 8.16.1 kernel + vm_compute; no axioms (Print Assumptions: closed under the global context); the Go correspondence harness "
          "filesinkh, its tokenizer (file bytes -> whole events, byte for byte) and its projection of observables; the file system, the clock and the "
          "atomicity of write(2) under SIGKILL are modelled / assumed, not verified.")
-_TECH = "Coq proof over executable model + differential correspondence (vm_compute on harness cases) + observation-only oracles"
+_TECH = ("Coq proof over executable model + differential correspondence (vm_compute on harness cases) + observation-only oracles; the evaluator's verdict is "
+         "itself characterised in Coq (RunFileSinkSound: mismatches cs = [] <-> every case is an execution of the model meeting the oracles; kill / fsize verdicts likewise)")
 MANIFEST = {
     "C08": {"text": "FileSink.v: file_sink.go (Process, Reopen, open, rotate, reopen, pruneFiles, newFileName, special paths, write-retry branch under a fault oracle) "
                     "transcribed over a directory of inodes, every clock reading an input. Theorems over EVERY history of Write/Reopen/ExtRename/Pause, every configuration, "
@@ -89,7 +90,7 @@ MANIFEST = {
                     "ambiguous. Partial: the elapsed-time boundary itself (elapsed == MaxDuration) is not observable.",
             "design_ref": "5.C15", "note": _NOTE, "technique": _TECH, "engine": "coq-filesink"},
 }
-ENGINE = {"name": "coq-filesink", "path": "coq/FileSink.v coq/FileSinkProofs.v coq/FileSinkExamples.v coq/Run_FileSink.v harness/cmd/filesinkh lib/eng_filesink.py",
+ENGINE = {"name": "coq-filesink", "path": "coq/FileSink.v coq/FileSinkProofs.v coq/FileSinkExamples.v coq/Run_FileSink.v coq/RunFileSinkSound.v harness/cmd/filesinkh lib/eng_filesink.py",
           "serves_properties": ["C08", "C15"], "kind_free_text": "Coq model + proofs; Go differential driver; vm_compute comparison"}
 
 _M_ITEM = re.compile(r"\((\d+)%N,\((\d+)%N,(\d+)%N,(\w+)\)\)")
